@@ -258,7 +258,7 @@ Proof.
   rewrite forallb_forall in H. auto.
 Qed.
 
-Ltac by_name Hn := destruct Hn as [Hwf Hn]; match goal with d : defn |- _ =>
+Ltac by_name Hn := destruct Hn as [Hwd Hn]; match goal with d : defn |- _ =>
   destruct d; try (vm_compute in Hn; discriminate Hn) end.
 
 Ltac std_rt defs name lem :=
@@ -334,51 +334,51 @@ Proof.
     as (f2 & Hf2 & ->); try reflexivity; auto; try lia.
   { std_rt defs "import" defn_import_rt. }
   (* function *)
-  match goal with |- read_sections _ ?st0 _ = _ =>
+  match goal with |- context [read_sections _ ?st0 _] =>
     destruct (function_section defs) with (s := s2) (f := f2) (st := st0)
       (rest := s3 ++ s4 ++ s5 ++ s6 ++ s7 ++ s8 ++ s9 ++ s10 ++ s11 ++ s12 ++ [])
       as (f3 & Hf3 & ->); auto; try lia end.
   { eapply Forall_impl; [|apply (filter_wf defs "func"); assumption].
-    intros d H; by_name H. cbn [wf_defn] in Hwf0. split_and Hwf0. unfold tref. cbn [func_ref].
-    unfold ref_ok in Hwf0. apply andb_true_iff in Hwf0. tauto. }
+    intros d H; by_name H. cbn [wf_defn] in Hwd. split_and Hwd. unfold tref. cbn [func_ref].
+    unfold ref_ok in Hwd. apply andb_true_iff in Hwd. tauto. }
   (* table *)
-  match goal with |- read_sections _ ?st0 _ = _ =>
+  match goal with |- context [read_sections _ ?st0 _] =>
     destruct (std_section defs "table" 4 read_table_definition) with (s := s3) (f := f3) (st := st0)
       (rest := s4 ++ s5 ++ s6 ++ s7 ++ s8 ++ s9 ++ s10 ++ s11 ++ s12 ++ [])
       as (f4 & Hf4 & ->); try reflexivity; auto; try lia end.
   { std_rt defs "table" defn_table_rt. }
   (* memory *)
-  match goal with |- read_sections _ ?st0 _ = _ =>
+  match goal with |- context [read_sections _ ?st0 _] =>
     destruct (std_section defs "memory" 5 read_memory_definition) with (s := s4) (f := f4) (st := st0)
       (rest := s5 ++ s6 ++ s7 ++ s8 ++ s9 ++ s10 ++ s11 ++ s12 ++ [])
       as (f5 & Hf5 & ->); try reflexivity; auto; try lia end.
   { std_rt defs "memory" defn_memory_rt. }
   (* global *)
-  match goal with |- read_sections _ ?st0 _ = _ =>
+  match goal with |- context [read_sections _ ?st0 _] =>
     destruct (std_section defs "global" 6 read_global_definition) with (s := s5) (f := f5) (st := st0)
       (rest := s6 ++ s7 ++ s8 ++ s9 ++ s10 ++ s11 ++ s12 ++ [])
       as (f6 & Hf6 & ->); try reflexivity; auto; try lia end.
   { std_rt defs "global" defn_global_rt. }
   (* export *)
-  match goal with |- read_sections _ ?st0 _ = _ =>
+  match goal with |- context [read_sections _ ?st0 _] =>
     destruct (std_section defs "export" 7 read_export_definition) with (s := s6) (f := f6) (st := st0)
       (rest := s7 ++ s8 ++ s9 ++ s10 ++ s11 ++ s12 ++ [])
       as (f7 & Hf7 & ->); try reflexivity; auto; try lia end.
   { std_rt defs "export" defn_export_rt. }
   (* start *)
-  match goal with |- read_sections _ ?st0 _ = _ =>
+  match goal with |- context [read_sections _ ?st0 _] =>
     destruct (single_section defs "start" 8 read_start_definition) with (s := s7) (f := f7) (st := st0)
       (rest := s8 ++ s9 ++ s10 ++ s11 ++ s12 ++ [])
       as (f8 & Hf8 & ->); try reflexivity; auto; try lia end.
   { std_rt defs "start" defn_start_rt. }
   (* elem *)
-  match goal with |- read_sections _ ?st0 _ = _ =>
+  match goal with |- context [read_sections _ ?st0 _] =>
     destruct (std_section defs "elem" 9 read_elem_definition) with (s := s8) (f := f8) (st := st0)
       (rest := s9 ++ s10 ++ s11 ++ s12 ++ [])
       as (f9 & Hf9 & ->); try reflexivity; auto; try lia end.
   { std_rt defs "elem" defn_elem_rt. }
   (* func (code section) *)
-  match goal with |- read_sections _ ?st0 _ = _ =>
+  match goal with |- context [read_sections _ ?st0 _] =>
     destruct (func_section defs []) with (s := s9) (f := f9) (st := st0)
       (rest := s10 ++ s11 ++ s12 ++ [])
       as (f10 & Hf10 & ->); auto; try lia end.
@@ -388,13 +388,13 @@ Proof.
   change (write_section defs "code" 10) with (Ok (A:=bytes) []) in E10. injection E10 as <-.
   cbn [app].
   (* data *)
-  match goal with |- read_sections _ ?st0 _ = _ =>
+  match goal with |- context [read_sections _ ?st0 _] =>
     destruct (std_section defs "data" 11 read_data_definition) with (s := s11) (f := f10) (st := st0)
       (rest := s12 ++ [])
       as (f11 & Hf11 & ->); try reflexivity; auto; try lia end.
   { std_rt defs "data" defn_data_rt. }
   (* datacount *)
-  match goal with |- read_sections _ ?st0 _ = _ =>
+  match goal with |- context [read_sections _ ?st0 _] =>
     destruct (single_section defs "datacount" 12 read_data_count_definition) with (s := s12) (f := f11)
       (st := st0) (rest := @nil Z)
       as (f12 & Hf12 & ->); try reflexivity; auto; try lia end.
